@@ -12,6 +12,7 @@ The deciding query composes them: do two particles in two different stripes of o
 (stripe membership as proved in C17), sharing the offset, write a common row?  sat = two
 threads can update the same cell concurrently (lost update), with the witness replayed."""
 import sys
+import types
 import numpy as real_np
 import z3
 from checks import common
@@ -111,7 +112,11 @@ def body_config(n1d, coord, user):
     # derived from the wrong axis length would be accepted here although its stripes are too narrow
     shape = [2 * n1d + 6, 2 * n1d + 9, 2 * n1d + 12]
     shape[coord] = n1d
-    dens = SArr(tuple(shape), 'f4', fill=None, name='dens')
+    if shape[0] * shape[1] * shape[2] <= 200000:
+        dens = SArr(tuple(shape), 'f4', fill=None, name='dens')
+    else:
+        # the configuration step only looks at the grid's shape / dtype (painters are recorders): no cells for the big sweeps
+        dens = types.SimpleNamespace(shape=tuple(shape), ndim=3, dtype=arrays.T('f4'), itemsize=4)
     pos = SArr((0, 3), 'f4', name='pos')
     npart = None
     if user:
@@ -127,11 +132,12 @@ def body_config(n1d, coord, user):
     else:
         npv = 1     # serial path: a single stripe
     e = core.lift(npv).as_int()
-    vals = c.values(e, cap=400, what='accepted npartition')
     out = []
     # concurrency is decided by the thread count in force when _tsc_parallel runs (numba's global setting),
     # which need not be the caller's nthread argument
     eff = core.lift(rec['tsc']['threads']).as_int() if 'tsc' in rec else nthread.e
+    c.add(eff > 1)      # only configurations that can run concurrently matter (with one thread every npartition is accepted, and harmless)
+    vals = c.values(e, cap=700, what='accepted npartition')
     for v in vals:
         r, m = c._check([e == v, eff > 1], core.FORK_TIMEOUT_MS)
         if r == 'sat':
